@@ -189,7 +189,7 @@ def concatenate(arrays, axis=0, out=None, dtype=None, **kw):
         for a in arrays:
             if a._shape[0] != h:
                 raise ValueError('all the input array dimensions except for the concatenation axis must match exactly')
-        lists = [a.tolist() for a in arrays]
+        lists = [a._rows() for a in arrays]
         cells = []
         for i in range(h):
             for l in lists:
@@ -339,7 +339,7 @@ def _axis_groups(a, axis):
         return [a._cells()], ()
     if axis >= 2:
         raise _np.exceptions.AxisError(f'axis {axis} is out of bounds for array of dimension 2')
-    rows = a.tolist()
+    rows = a._rows()
     r, c = a._shape
     if axis == 0:
         return [[rows[i][j] for i in range(r)] for j in range(c)], (c,)
@@ -873,7 +873,7 @@ def _cum(a, axis, out, nanskip, mul=False):
         cells = run(a._cells())
         res = ndarray._from_cells(cells, (len(cells),), dt)
     else:
-        rows = a.tolist()
+        rows = a._rows()
         r, c = a._shape
         if axis == 0:
             cols = [run([rows[i][j] for i in range(r)]) for j in range(c)]
@@ -1006,7 +1006,7 @@ def lexsort(keys, axis=-1):
             raise TypeError('object arrays are not supported by lexsort') if False else None
         ks.append(k._cells())
     if isinstance(keys, ndarray) and keys.ndim == 2:
-        ks = keys.tolist()
+        ks = keys._rows()
     ks = list(reversed(ks))
     o = _stable_order(ks) if ks else []
     return ndarray._from_cells(o, (len(o),), DT_INT)
@@ -1027,7 +1027,7 @@ def unique(ar, return_index=False, return_inverse=False, return_counts=False, ax
             if isinstance(u, tuple):
                 return (u[0].T.copy(),) + u[1:]
             return u.T.copy()
-        rows = ar.tolist()
+        rows = ar._rows()
         w = ar._shape[1]
         keys = [[r[j] for r in rows] for j in range(w)]
         o = _stable_order(keys) if w else list(range(len(rows)))
